@@ -547,6 +547,7 @@ def family(prop, t, sd):
         items += integer_rounding_family(t)
         items += ill_conditioned_family(t)
     items += gen.diverging_family()
+    items += gen.nested_family()
     lim = os.environ.get('VERIF_LIMIT')
     if lim:
         step = max(1, len(items) // int(lim))
